@@ -279,4 +279,13 @@ example :
       texts (h.1.cache.map (·.2)) = [(lit "-ads-", -2), (lit "/ad$domain=c.org", -2), (lit "/banner", 1)] ∧
       h.1.closed = [1] := by decide +kernel
 
+/-- `c19_composed_net` instantiated on these lists (its hypotheses are satisfiable: the storage is built, every
+    pattern oracle is a pattern model), for the split `[query] ++ [close 1, query]`. -/
+example :
+    ∀ t ∈ (runHistoryT (envNet ⟨4096, fun _ => 3⟩ exPx exLists (PatModel.ofOracle exPx.ext.pat)) {}
+        ([.query (.web exQ1)] ++ [.close 1, .query (.web exQ)])).2,
+      t.pc = .done ∧ t.answer.1.Sublist (netAnswer ⟨4096, fun _ => 3⟩ exPx exLists ⟨exLists, []⟩ [] t.q).1 :=
+  (c19_composed_net ⟨4096, fun _ => 3⟩ exPx exLists (PatModel.ofOracle exPx.ext.pat) rfl ⟨exLists, []⟩ rfl []
+    [.query (.web exQ1)] [.close 1, .query (.web exQ)]).2.2.1
+
 end UF.C19
